@@ -52,7 +52,7 @@ def check_property(pid, extra_files=(), tier="quick"):
     theorems = re.findall(r"^\s*Theorem\s+(\w+)", src, flags=re.M)
     res["theorems"] = theorems; res["obligations"] = len(theorems)
     res["forbidden"] = scan_forbidden()
-    r = subprocess.run(["timeout", "1500", "make", "-j%d" % common.JOBS, rel + "o"] + [f + "o" for f in extra_files],
+    r = subprocess.run(["timeout", "3000", "make", "-j%d" % common.JOBS, rel + "o"] + [f + "o" for f in extra_files],
                        cwd=common.COQ, capture_output=True, text=True)
     if r.returncode != 0:
         res["detail"] = "coq build failed:\n" + (r.stdout[-1500:] + r.stderr[-2500:])
